@@ -111,7 +111,8 @@ func Pieces(t string) []string {
 	return out
 }
 
-// CorpusMutations calls f with every single-piece deletion and every insertion of a lexeme at every piece boundary.
+// CorpusMutations calls f with every single-piece deletion, every insertion of a lexeme at every piece boundary and every
+// replacement of a piece by one of six lexemes.
 func CorpusMutations(t string, lexemes []string, f func(idx int, s string)) {
 	ps := Pieces(t)
 	idx := 0
@@ -124,6 +125,17 @@ func CorpusMutations(t string, lexemes []string, f func(idx int, s string)) {
 		pre, post := join(ps[:i]), join(ps[i:])
 		for _, l := range lexemes {
 			f(idx, pre+l+post)
+			idx++
+		}
+	}
+	// every piece REPLACED by a character no token can hold, by a non-ASCII one, by a keyword, by punctuation: a name that the
+	// lexer drops altogether leaves the parser with a declaration without a name
+	for i := range ps {
+		if strings.TrimSpace(ps[i]) == "" {
+			continue
+		}
+		for _, l := range []string{"$", "é", "@~", "define", ":", "type"} {
+			f(idx, join(ps[:i])+l+join(ps[i+1:]))
 			idx++
 		}
 	}
